@@ -804,7 +804,7 @@ func run(c *vk.Ctx) {
 	completed := map[string]int{}
 	sub := 4
 	if c.Thorough() {
-		sub = 8
+		sub = 32 // many short processes: a shard process leaks memory with every execution
 	}
 	maxB := bound
 	if c.Thorough() {
